@@ -162,4 +162,51 @@ theorem c02_lang (nsmap) (ft : Bool) (attr : QName) (hnr : isRefAttr attr = fals
     simp [encodeXmlAttr, hnr, hu, Value.pyStrFull]
   simp [readBack, extractAttr, childNode, henc, ht, Except.map, hl]
 
+/-! ### the subtype element consumes exactly one pair -/
+
+/-- **`_derive_record_label`, nothing lost**: either no prov:type names a PROV subtype of the record's kind and the attribute
+    list is written as it is under the kind's own element, or exactly one pair — the first such prov:type, a qualified name
+    `q` — is taken out *by position* (every other pair, an equal one included, stays in place and in order) and the element
+    is the one the table gives for `q` -/
+theorem c02_deriveLabel_exact (k : RecKind) (attrs : List (QName × Value)) :
+    ((∀ p ∈ attrs, isSubtypePair k p = false) ∧ deriveLabel k attrs = (k.provN, attrs)) ∨
+    (∃ a q l₁ l₂, attrs = l₁ ++ (a, .qn q) :: l₂ ∧ (∀ p ∈ l₁, isSubtypePair k p = false) ∧
+      isSubtypePair k (a, .qn q) = true ∧ (deriveLabel k attrs).2 = l₁ ++ l₂ ∧
+      ∃ s ∈ subtypeTable, q.uri = provUri ++ s.1 ∧ s.2.2 = k ∧
+        (deriveLabel k attrs).1 = (match subtypeTable.find? (fun s => q.uri == provUri ++ s.1) with
+          | some s => s.2.1 | none => k.provN)) := by
+  cases hf : attrs.find? (isSubtypePair k) with
+  | none =>
+    left
+    refine ⟨fun p hp => ?_, by simp [deriveLabel, hf]⟩
+    have := List.find?_eq_none.mp hf p hp
+    simpa using this
+  | some p =>
+    right
+    obtain ⟨a, v⟩ := p
+    have hp : isSubtypePair k (a, v) = true := List.find?_some hf
+    have hmem : (a, v) ∈ attrs := List.mem_of_find?_eq_some hf
+    cases v with
+    | qn q =>
+      obtain ⟨l₁, l₂, h1, h2⟩ := List.find?_eq_some_iff_append.mp hf |>.2
+      have herase : attrs.eraseP (isSubtypePair k) = l₁ ++ l₂ := by
+        rw [h1]
+        rw [List.eraseP_append_right _ (by intro b hb; simpa using h2 b hb)]
+        simp [hp]
+      have htab : ∃ s ∈ subtypeTable, q.uri = provUri ++ s.1 ∧ s.2.2 = k := by
+        simp only [isSubtypePair, Bool.and_eq_true, List.any_eq_true, beq_iff_eq] at hp
+        obtain ⟨_, s, hs, h3, h4⟩ := hp
+        exact ⟨s, hs, h3, h4⟩
+      refine ⟨a, q, l₁, l₂, h1, fun p hp' => by simpa using h2 p hp', hp, ?_, ?_⟩
+      · simp [deriveLabel, hf, herase]
+      · obtain ⟨s, hs, h3, h4⟩ := htab
+        exact ⟨s, hs, h3, h4, by rw [deriveLabel, hf]; rfl⟩
+    | _ => simp [isSubtypePair] at hp
+
+/-- the defect repaired by the fix "remove that very pair": with removal by `==`, an equal xsd:anyURI value listed first
+    was the one taken out (test on a concrete record, not a theorem about all inputs) -/
+example : (deriveLabel .entity [(provQ "type", .uri (provUri ++ "Bundle")), (provQ "type", .qn (provQ "Bundle"))]) =
+    ("bundle", [(provQ "type", .uri (provUri ++ "Bundle"))]) := by decide
+
+
 end Prov.C02
